@@ -375,6 +375,7 @@ pub fn run(tier: &Tier, args: &[String]) -> i32 {
     };
     crate::keys::skip(keys_used + 8);
     let mut runs = Vec::new();
+    let mut samples: Vec<Value> = Vec::new();
     let mut total_exec = 0u64;
     let variants: Vec<(&str, bool)> = if tier.thorough {
         vec![("same-roa", true), ("mixed", true), ("two-entities", true), ("same-roa", false), ("mixed", false), ("two-writers+real-locks", true), ("two-writers+real-locks", false)]
@@ -413,6 +414,7 @@ pub fn run(tier: &Tier, args: &[String]) -> i32 {
                 replay: json!({"variant": variant, "disk": disk, "schedule": prefix, "trace": result.trace, "outputs": result.outputs, "kind": kind, "detail": detail}),
             });
         }
+        samples.extend(stats.samples.iter().cloned());
         runs.push(json!({
             "variant": variant, "backend": if disk { "disk" } else { "memory" }, "preemption_bound": b,
             "schedules": stats.executions, "choice_points": stats.choice_points, "longest_schedule": stats.max_trace,
@@ -434,6 +436,7 @@ pub fn run(tier: &Tier, args: &[String]) -> i32 {
         "traces_validated_against_impl": total_exec,
         "rule": "every schedule of the harness threads with at most the stated number of preemptions, each executed on the real runtime from the same initial state; after each: consecutive versions, command files = history API, acknowledged = recorded, rejected = recorded with error, commands without effect leave no trace, two racing identical changes: exactly one wins, every read equals the state after a prefix of the recorded order, final state = replay, fresh instance replays to the live state",
         "runs": runs,
+        "samples": samples.iter().take(6).collect::<Vec<_>>(),
         "exhaustive": !capped,
     });
     out.finish()
